@@ -1,0 +1,7 @@
+//go:build !verif
+
+package common
+
+// VerifPoint marks a schedule point used by the verification harness (build tag "verif").
+// Without the tag it is an empty, inlinable function.
+func VerifPoint(label string) {}
